@@ -260,8 +260,75 @@ func (e *iterEngine) genARTCase(r *hlib.Rand) []string {
 	return genScans(r, ops, targets, true)
 }
 
+// genTxnSessionCase: ONE update transaction kept open across several writes and iterators:
+// Set/Delete of keys that are already pending (no new key in between) interleaved with iterators
+// in the same and in the opposite direction; every key a forward one-version iterator yields is
+// also read with Txn.Get.
+func (e *iterEngine) genTxnSessionCase(r *hlib.Rand) []string {
+	ops := []string{"open eng=skiplist vt=1048576"}
+	for n := 1 + r.Intn(3); n > 0; n-- {
+		ops = append(ops, "commit "+genWrites(r, 1+r.Intn(3)))
+		if r.Chance(25) {
+			ops = append(ops, "rotate")
+		}
+	}
+	ops = append(ops, "txn.begin upd=1")
+	var pendKeys [][]byte
+	write := func(fresh bool) {
+		var ws []string
+		for n := 1 + r.Intn(2); n > 0; n-- {
+			var k []byte
+			if fresh || len(pendKeys) == 0 {
+				k = hlib.Pick(r, keyPool)
+				pendKeys = append(pendKeys, k)
+			} else {
+				k = hlib.Pick(r, pendKeys)
+			}
+			switch x := r.Intn(100); {
+			case x < 60:
+				ws = append(ws, "set:"+hlib.Hex(k)+":"+hlib.Hex(val(r)))
+			case x < 88:
+				ws = append(ws, "del:"+hlib.Hex(k))
+			default:
+				ws = append(ws, "exp:"+hlib.Hex(k)+":"+hlib.Hex(val(r)))
+			}
+		}
+		ops = append(ops, "txn.set "+strings.Join(ws, ","))
+	}
+	write(true)
+	if r.Chance(60) {
+		write(true)
+	}
+	rev := r.Chance(35)
+	rounds := 3 + r.Intn(3)
+	for i := 0; i < rounds; i++ {
+		if i > 0 {
+			write(r.Chance(20)) // mostly keys that are already pending
+			if r.Chance(25) {
+				rev = !rev
+			}
+		}
+		ops = append(ops, fmt.Sprintf("txn.it rev=%s all=%s ko=0 pik=0 pfx=- since=0 lo=- hi=- ", b01(rev), b01(r.Chance(15))))
+		ops = append(ops, "rewind")
+		for n := 4 + r.Intn(8); n > 0; n-- {
+			ops = append(ops, "next")
+		}
+		if r.Chance(40) {
+			ops = append(ops, "seek "+hlib.Hex(hlib.Pick(r, probePool)), "next")
+		}
+		if len(pendKeys) > 0 {
+			ops = append(ops, "get "+hlib.Hex(hlib.Pick(r, pendKeys)))
+		}
+		ops = append(ops, "close")
+	}
+	ops = append(ops, "txn.end")
+	return ops
+}
+
 func (e *iterEngine) Gen(r *hlib.Rand, tier string) []string {
 	switch x := r.Intn(100); {
+	case x >= 86:
+		return e.genTxnSessionCase(r)
 	case x < 8:
 		return e.genBlockCase(r)
 	case x < 26:
@@ -439,12 +506,14 @@ func verStr(v uint64) string {
 }
 
 type session struct {
-	db   *NoKV.DB
-	dir  string
-	txn  *NoKV.Txn
-	tit  *NoKV.TxnIterator
-	dit  utils.Iterator
-	outs []string
+	keepTxn  bool // txn.begin … txn.end: the transaction outlives its iterators
+	checkGet bool // forward, one version per key, no write since the iterator was created
+	db       *NoKV.DB
+	dir      string
+	txn      *NoKV.Txn
+	tit      *NoKV.TxnIterator
+	dit      utils.Iterator
+	outs     []string
 }
 
 func (s *session) open(eng string, vt int) {
@@ -490,14 +559,20 @@ func (s *session) closeIter() {
 		_ = s.dit.Close()
 		s.dit = nil
 	}
-	if s.txn != nil {
+	if s.txn != nil && !s.keepTxn {
 		s.txn.Discard()
 		s.txn = nil
 	}
 }
 
+func (s *session) endTxn() {
+	s.keepTxn = false
+	s.closeIter()
+}
+
 func (s *session) shutdown() {
 	defer func() { _ = recover() }()
+	s.keepTxn = false
 	if os.Getenv("ITER_DEBUG") != "" {
 		t0 := time.Now()
 		defer func() {
@@ -537,7 +612,21 @@ func (s *session) item() string {
 			}
 			return "value-error"
 		}
-		return hlib.Hex(k) + ":" + verStr(ver) + ":" + hlib.Hex(v)
+		out := hlib.Hex(k) + ":" + verStr(ver) + ":" + hlib.Hex(v)
+		if s.checkGet {
+			// "each value equals a point read of the same key"
+			g, gerr := s.txn.Get(k)
+			switch {
+			case gerr != nil:
+				out += "!get=err"
+			default:
+				gv, _ := g.ValueCopy(nil)
+				if !bytes.Equal(gv, v) {
+					out += "!get=" + hlib.Hex(gv)
+				}
+			}
+		}
+		return out
 	}
 	if s.dit != nil {
 		if !s.dit.Valid() {
@@ -685,8 +774,48 @@ func (s *session) exec(op string) string {
 			return fmt.Sprintf("shape:l0=%d,ing=%d,others=%v", l0, ing, others)
 		}
 		return "ok:" + mainTables(l.VerifShape(), base)
-	case "txn.iter":
+	case "txn.begin":
+		s.endTxn()
+		s.txn = s.db.NewTransaction(kvArg(toks, "upd") == "1")
+		s.keepTxn = true
+		return "ok"
+	case "txn.set":
+		if s.txn == nil || !s.keepTxn {
+			return "no-txn"
+		}
+		s.checkGet = false
+		if err := applyWrites(s.txn, parseWrites(toks[1])); err != nil {
+			return "err:" + err.Error()
+		}
+		return "ok"
+	case "txn.it":
+		if s.txn == nil || !s.keepTxn {
+			return "no-txn"
+		}
 		s.closeIter()
+		since, _ := strconv.ParseUint(kvArg(toks, "since"), 10, 64)
+		o := NoKV.IteratorOptions{
+			Reverse:     kvArg(toks, "rev") == "1",
+			AllVersions: kvArg(toks, "all") == "1",
+			KeyOnly:     kvArg(toks, "ko") == "1",
+			SinceTs:     since,
+			LowerBound:  hlib.UnHex(kvArg(toks, "lo")),
+			UpperBound:  hlib.UnHex(kvArg(toks, "hi")),
+		}
+		if kvArg(toks, "pik") == "1" {
+			s.tit = s.txn.NewKeyIterator(hlib.UnHex(kvArg(toks, "pfx")), o)
+		} else {
+			o.Prefix = hlib.UnHex(kvArg(toks, "pfx"))
+			s.tit = s.txn.NewIterator(o)
+		}
+		s.checkGet = !o.Reverse && !o.AllVersions && kvArg(toks, "pik") != "1"
+		return "ok"
+	case "txn.end":
+		s.endTxn()
+		return "ok"
+	case "txn.iter":
+		s.endTxn()
+		s.checkGet = false
 		upd := kvArg(toks, "upd") == "1"
 		s.txn = s.db.NewTransaction(upd)
 		if upd {
@@ -711,7 +840,7 @@ func (s *session) exec(op string) string {
 		}
 		return "ok"
 	case "db.iter":
-		s.closeIter()
+		s.endTxn()
 		s.dit = s.db.NewIterator(&utils.Options{
 			IsAsc:      kvArg(toks, "rev") != "1",
 			OnlyUseKey: kvArg(toks, "ko") == "1",
@@ -796,7 +925,7 @@ func (e *iterEngine) Nontrivial(ops, impl, model, spec []string) bool {
 	e.cases++
 	tomb, multi := false, false
 	for _, op := range ops {
-		if strings.HasPrefix(op, "commit ") || strings.HasPrefix(op, "txn.iter ") {
+		if strings.HasPrefix(op, "commit ") || strings.HasPrefix(op, "txn.iter ") || strings.HasPrefix(op, "txn.set ") {
 			if strings.Contains(op, "del:") || strings.Contains(op, "exp:") {
 				tomb = true
 			}
@@ -830,10 +959,10 @@ func (e *iterEngine) Nontrivial(ops, impl, model, spec []string) bool {
 		keys = nil
 	}
 	for i, op := range ops {
-		if strings.HasSuffix(strings.Fields(op)[0], ".iter") {
+		if f0 := strings.Fields(op)[0]; strings.HasSuffix(f0, ".iter") || f0 == "txn.it" {
 			flushKeys()
 		}
-		if isCursor(op) && impl[i] != "-" && strings.Count(impl[i], ":") == 2 {
+		if isCursor(op) && impl[i] != "-" && strings.Count(impl[i], ":") >= 2 {
 			k := hlib.UnHex(strings.SplitN(impl[i], ":", 2)[0])
 			dup := false
 			for _, x := range keys {
